@@ -41,6 +41,30 @@ func genLru(r *Rng, tier string, idx int, args map[string]string) []string {
 	}
 	ops := []string{"new " + Itoa(capv) + " " + Itoa64(ttl)}
 	key := func() string { return "k" + Itoa(r.Intn(nkeys)) }
+	if args["bigcap"] == "" && r.Chance(1, 4) {
+		// lifetime walk: few keys, a short lifetime, many small clock steps between reads and writes,
+		// so that entries are read repeatedly on both sides of their expiry
+		ttl = Pick(r, []int64{10_500_000_000, 2_500_000_000})
+		nkeys = r.Range(1, 3)
+		ops[0] = "new " + Itoa(Pick(r, []int{2, 3, 7})) + " " + Itoa64(ttl)
+		for i := 0; i < n; i++ {
+			switch x := r.Intn(100); {
+			case x < 20:
+				ops = append(ops, "put "+key()+" "+Itoa(r.Intn(1000)))
+			case x < 55:
+				ops = append(ops, "get "+key())
+			case x < 85:
+				ops = append(ops, "adv "+Itoa64(int64(Pick(r, []int{1, 1, 2, 2, 3, 4}))*1_000_000_000))
+			case x < 92:
+				ops = append(ops, "cleanup")
+			case x < 96:
+				ops = append(ops, "stats")
+			default:
+				ops = append(ops, "size")
+			}
+		}
+		return ops
+	}
 	for i := 0; i < n; i++ {
 		switch x := r.Intn(100); {
 		case x < 34:
